@@ -39,6 +39,14 @@ Proof.
 Qed.
 Print Assumptions C02_blank_filled_partition_threshold.
 
+(* since the repair of F19 the side condition on the lengths is gone: with any threshold the written tier is a
+   partition of the span *)
+Theorem C02_blank_filled_partition_any_threshold minT maxT th t :
+  d_isint t = true -> chain minT (d_ents t) maxT -> (d_ents t <> [] \/ minT < maxT) -> 0 < snd th ->
+  exists t', prep_tier true minT maxT (Some th) t = Ok t' /\ partitionb minT (d_ents t') = Some maxT.
+Proof. exact (prep_tier_blanks_always minT maxT th t). Qed.
+Print Assumptions C02_blank_filled_partition_any_threshold.
+
 (* non-vacuity / sanity of the reference reader on a written file with keyword-like text *)
 (* whole files: the specification reader (free-standing numbers, quoted strings, <flags>; every
    other word is comment) reads what the short writer and the long writer print to exactly the
